@@ -274,3 +274,100 @@ Print Assumptions C04_pinned_long_key_recorded_as_empty.
 Print Assumptions C04_pinned_value_size_refuted.
 Print Assumptions C04_pinned_long_key_refuted.
 Print Assumptions C04_check_runs_the_model.
+
+(* ================================================================ the Go functions themselves, TRANSLATED
+   On every check gen/golite.go re-translates searchEytzinger, hashUint64, Header.BucketHash, BucketHeader.Hash,
+   uintLe, putUintLe (compactindex.go / query.go) and eytzinger (build.go) from /repo's working tree into the GoLite
+   fragment (Generated/GoLiteC04.v; semantics: GoLite.v — fixed-width wrap-around, panics on bad indexes, fuel for
+   loops and calls).  The theorems below state that each translated function IS the corresponding function of the
+   hand-written model the theorems above are about; they are re-proved against what the source says now. *)
+Require YF.GoLite YF.Generated.GoLiteC04 YF.GoLiteC04_Proofs YF.GoLiteC04_Search YF.GoLiteC04_Codec YF.GoLiteC04_Eytz YF.Eytz.
+Import ZArith String.
+
+(* query.go:searchEytzinger (min = 0 as every caller passes it) is CI.search_get for EVERY entry oracle [get]
+   (None = the read of that entry failed), every bucket size below 2^62 and every target hash; the loop needs at
+   most n+1 rounds. *)
+Theorem C04_translated_search_is_the_model : forall (get : nat -> option CI.entry) (f n : nat) (x : N),
+  (Z.of_nat n < 4611686018427387904)%Z -> n < f ->
+  GoLite.call GoLiteC04.prog (GoLiteC04_Search.ext_get get) f "searchEytzinger"%string
+    [GoLite.VInt 0%Z; GoLite.VInt (Z.of_nat n); GoLite.VInt (Z.of_N x)]
+  = GoLiteC04_Search.enc (CI.search_get f get n x 0).
+Proof. exact GoLiteC04_Search.searchEytzinger_is_search_get. Qed.
+
+(* compactindex.go:hashUint64 is C04_Hash.murmur on every 64-bit value *)
+Theorem C04_translated_hashUint64_is_murmur : forall ext fuel (x : N), (x < 18446744073709551616)%N ->
+  GoLite.call GoLiteC04.prog ext fuel "hashUint64"%string [GoLite.VInt (Z.of_N x)]
+  = GoLite.RRet (GoLite.VInt (Z.of_N (murmur x))).
+Proof. exact GoLiteC04_Proofs.hashUint64_is_murmur. Qed.
+
+(* compactindex.go:(Header).BucketHash, for every Sum64 oracle with 64-bit results and every bucket count
+   1..2^32-1: whenever the call returns, the result is  rounds k (Sum64 key) mod NumBuckets  for the first k whose
+   value is not rejected, hence < NumBuckets, and equal to the model's 64-round [reject] whenever k <= 64. *)
+Theorem C04_translated_bucket_hash_is_the_model :
+  forall (sum64 : list Z -> N), (forall k, (sum64 k < 18446744073709551616)%N) ->
+  forall f key (nb : N) mx, (0 < nb)%N -> (nb < 4294967296)%N ->
+  let h := GoLite.VStruct [("NumBuckets"%string, GoLite.VInt (Z.of_N nb)); ("X"%string, mx)] in
+  let r := ((18446744073709551616 - nb) mod nb)%N in
+  forall v, GoLite.call GoLiteC04.prog (GoLiteC04_Proofs.ext_sum sum64) f "Header.BucketHash"%string [h; GoLite.VInts key] = GoLite.RRet v ->
+  exists k, (r <= GoLiteC04_Proofs.rounds k (sum64 key))%N /\
+            v = GoLite.VInt (Z.of_N (GoLiteC04_Proofs.rounds k (sum64 key) mod nb)) /\
+            (k <= 64 -> v = GoLite.VInt (Z.of_N (reject 64 (sum64 key) r mod nb))).
+Proof. exact GoLiteC04_Proofs.BucketHash_is_model_reject. Qed.
+
+(* compactindex.go:(BucketHeader).Hash, for every EntryHash64 oracle with 64-bit results: hash lengths 1..8 keep
+   exactly the low HashLen bytes (HashLen = 3 is CI.h24) *)
+Theorem C04_translated_entry_hash_mask :
+  forall (eh : Z -> list Z -> N), (forall d k, (eh d k < 18446744073709551616)%N) ->
+  forall f d (hl : N) key rest, (0 <= d)%Z -> (1 <= hl <= 8)%N ->
+  GoLite.call GoLiteC04.prog (GoLiteC04_Codec.ext_eh eh) f "BucketHeader.Hash"%string
+    [GoLite.VStruct (("HashDomain"%string, GoLite.VInt d) :: ("NumEntries"%string, GoLite.VInt 0%Z) ::
+                     ("HashLen"%string, GoLite.VInt (Z.of_N hl)) :: rest); GoLite.VInts key]
+  = GoLite.RRet (GoLite.VInt (Z.of_N (eh d key mod 256 ^ hl))).
+Proof. exact GoLiteC04_Codec.BucketHeader_Hash_is_mod. Qed.
+
+(* compactindex.go:uintLe / putUintLe are Codec.le_dec / Codec.le_enc on at most 8 bytes *)
+Theorem C04_translated_uintLe_is_le_dec : forall ext fuel (bs : list N), List.length bs <= 8 ->
+  GoLite.call GoLiteC04.prog ext fuel "uintLe"%string [GoLite.VInts (map Z.of_N bs)]
+  = GoLite.RRet (GoLite.VInt (Z.of_N (Codec.le_dec bs))).
+Proof. exact GoLiteC04_Codec.uintLe_is_le_dec. Qed.
+
+Theorem C04_translated_putUintLe_is_le_enc : forall ext fuel (buf : list Z) (x : N), List.length buf <= 8 ->
+  GoLite.call GoLiteC04.prog ext fuel "putUintLe"%string [GoLite.VInts buf; GoLite.VInt (Z.of_N x)]
+  = GoLite.RRet (GoLite.VInts (map Z.of_N (Codec.le_enc (List.length buf) x))).
+Proof. exact GoLiteC04_Codec.putUintLe_is_le_enc. Qed.
+
+(* build.go:eytzinger(in, out, 0, 1) is Eytz.go — the layout function of the eytzinger theorems (Eytz*.v, used by
+   C04 and C05) — on every input of fewer than 2^61 elements and every output array of the same length: same
+   final index, same array, no panic; recursion depth f suffices when len < 2^f. *)
+Theorem C04_translated_eytzinger_is_the_model : forall ext f (inp out : list Z),
+  List.length out = List.length inp -> (Z.of_nat (List.length inp) < 2305843009213693952)%Z -> List.length inp < 2 ^ f ->
+  GoLite.call GoLiteC04.prog ext f "eytzinger"%string [GoLite.VInts inp; GoLite.VInts out; GoLite.VInt 0%Z; GoLite.VInt 1%Z]
+  = GoLiteC04_Eytz.ey_ret (Eytz.go Z 0%Z (S f) inp out 0 1).
+Proof. exact GoLiteC04_Eytz.eytzinger_is_go. Qed.
+
+(* non-vacuity: the translated layout and search RUN (vm_compute inside the kernel): ten keys laid out by the
+   translated eytzinger, then every key found and an absent one not found by the translated searchEytzinger *)
+Example C04_translated_functions_run :
+  let keys := [10; 20; 30; 40; 50; 60; 70; 80; 90; 100]%Z in
+  match GoLite.call GoLiteC04.prog GoLite.no_ext 10 "eytzinger"%string
+          [GoLite.VInts keys; GoLite.VInts (repeat 0%Z 10); GoLite.VInt 0%Z; GoLite.VInt 1%Z] with
+  | GoLite.RRet (GoLite.VTuple [GoLite.VInt 10%Z; GoLite.VInts arr]) =>
+      let get := fun i => match nth_error arr i with Some h => Some (Z.to_N h, [Z.to_N h]) | None => None end in
+      forallb (fun k => match GoLite.call GoLiteC04.prog (GoLiteC04_Search.ext_get get) 20 "searchEytzinger"%string
+                                [GoLite.VInt 0%Z; GoLite.VInt 10%Z; GoLite.VInt k] with
+                        | GoLite.RRet (GoLite.VTuple [GoLite.VInts [v]; GoLite.VNil]) => Z.eqb v k
+                        | _ => false end) keys = true /\
+      GoLite.call GoLiteC04.prog (GoLiteC04_Search.ext_get get) 20 "searchEytzinger"%string
+        [GoLite.VInt 0%Z; GoLite.VInt 10%Z; GoLite.VInt 55%Z]
+      = GoLite.RRet (GoLite.VTuple [GoLite.VInts []; GoLite.VErr "ErrNotFound"%string])
+  | _ => False
+  end.
+Proof. vm_compute. split; reflexivity. Qed.
+
+Print Assumptions C04_translated_search_is_the_model.
+Print Assumptions C04_translated_hashUint64_is_murmur.
+Print Assumptions C04_translated_bucket_hash_is_the_model.
+Print Assumptions C04_translated_entry_hash_mask.
+Print Assumptions C04_translated_uintLe_is_le_dec.
+Print Assumptions C04_translated_putUintLe_is_le_enc.
+Print Assumptions C04_translated_eytzinger_is_the_model.
